@@ -24,11 +24,15 @@ package remote
 //@   modifies
 //@   ensures payload == deser(data, tname)
 
-//@ func (*streamReader).Receive(stream)
-//@   props C16
+//@ func (r *streamReader).Receive(stream)
+//@   props C16 C17
 //@   requires r != nil && r.remote != nil && engInv(r.remote.engine) && !isnil(r.deserializer) && !isnil(stream)
 //@   nopanic[C16.receive.nopanic]
 //@   modifies log, loglen
+//@   ghost at entry: lenv = loglen; nprev = 0
+//@   ghost at call Recv#1 before: assert[C17.reader.envelope-delivered-before-next-read] loglen == lenv + nprev
+//@   ghost at call Recv#1: lenv = loglen; nprev = len(result0.Messages)
+//@   ghost at call SendLocal#1 before: assert[C17.reader.in-envelope-order] loglen == lenv + rangeindex && msg == envelope.Messages[rangeindex]
 //@   ghost at call SendLocal#1 before: assert[C16.receive.type-index-valid] 0 <= msg.TypeNameIndex && msg.TypeNameIndex < len(envelope.TypeNames)
 //@   ghost at call SendLocal#1 before: assert[C16.receive.target-index-valid] 0 <= msg.TargetIndex && msg.TargetIndex < len(envelope.Targets)
 //@   ghost at call SendLocal#1 before: assert[C16.receive.sender-index-valid] len(envelope.Senders) > 0 ==> 0 <= msg.SenderIndex && msg.SenderIndex < len(envelope.Senders)
@@ -36,10 +40,11 @@ package remote
 //@   ghost at call SendLocal#1 before: assert[C16.receive.named-type] payload == deser(msg.Data, envelope.TypeNames[msg.TypeNameIndex])
 //@   ghost at call SendLocal#1 before: assert[C16.receive.sender] (len(envelope.Senders) > 0 ==> sender == envelope.Senders[msg.SenderIndex]) && (len(envelope.Senders) == 0 ==> sender == nil)
 //@   loop 1
-//@     invariant true
+//@     invariant[C17.reader.inv.between-envelopes] loglen == lenv + nprev
 //@   loop 2
 //@     invariant rangeindex >= -1
 //@     invariant decoded(envelope)
+//@     invariant[C17.reader.inv.one-delivery-per-message] loglen == lenv + rangeindex + 1 && rangeindex < len(envelope.Messages) && nprev == len(envelope.Messages)
 
 // ---------------------------------------------------------------------------
 // Outbound encoding (C15): streamWriter.Invoke builds three lookup tables
@@ -110,7 +115,7 @@ package remote
 //@      (sd.sender != nil ==> 0 <= mg.SenderIndex && mg.SenderIndex < len(senders) && pidkey(senders[mg.SenderIndex]) == pidkey(sd.sender)) &&
 //@      (sd.sender == nil ==> mg.SenderIndex == 0) && mg.Data == ser(sd.msg)
 
-//@ func (*streamWriter).Invoke(msgs)
+//@ func (s *streamWriter).Invoke(msgs)
 //@   props C15
 //@   requires s != nil && !isnil(s.serializer) && !isnil(s.stream) && !isnil(s.rawconn) && s.conn != nil
 //@   requires forall(k, 0 <= k && k < len(msgs) ==> istype(msgs[k].Msg, *streamDeliver) && sdOf(msgs[k]) != nil && sdOf(msgs[k]).target != nil)
@@ -157,7 +162,7 @@ package remote
 //@   ensures !isnil(result) && writerAddr(result) == address
 //@ ghost func writerAddr(Iface) Str
 
-//@ func (*Remote).Send(pid, msg, sender)
+//@ func (r *Remote).Send(pid, msg, sender)
 //@   props C17
 //@   requires r != nil && engInv(r.engine)
 //@   modifies log, loglen
@@ -165,13 +170,13 @@ package remote
 //@        arg2.(*streamDeliver).target == pid && arg2.(*streamDeliver).sender == sender && arg2.(*streamDeliver).msg == msg
 //@   ensures[C17.remote.send-effect] (r.streamRouterPID != nil ==> loglen == entry(loglen) + 1 && addressedTo(log[entry(loglen)], r.streamRouterPID)) && (r.streamRouterPID == nil ==> loglen == entry(loglen)) && logPrefix(entry(loglen))
 
-//@ func (*streamRouter).handleTerminateStream(msg)
+//@ func (s *streamRouter).handleTerminateStream(msg)
 //@   props C17
 //@   requires s != nil && s.streams != nil
 //@   modifies mapof(s.streams)
 //@   ensures[C17.router.forgets-the-unreachable-address] forallS("Str", a, has(s.streams, a) == (old(has(s.streams, a)) && a != msg.ListenAddr)) && forallS("Str", a, has(s.streams, a) ==> s.streams[a] == old(s.streams[a]))
 
-//@ func (*streamRouter).deliverStream(msg)
+//@ func (s *streamRouter).deliverStream(msg)
 //@   props C17
 //@   requires s != nil && s.streams != nil && engInv(s.engine) && msg != nil && msg.target != nil
 //@   modifies heap except private, mapof(s.streams), log, loglen
@@ -183,7 +188,7 @@ package remote
 //@   ghost at return#1: assert[C17.router.one-writer-per-new-address] !old(has(s.streams, msg.target.Address)) ==> spawned
 //@   ensures[C17.router.table] has(s.streams, msg.target.Address) && forallS("Str", a, a != msg.target.Address ==> has(s.streams, a) == old(has(s.streams, a)) && s.streams[a] == old(s.streams[a]))
 
-//@ func (*streamRouter).Receive(ctx)
+//@ func (s *streamRouter).Receive(ctx)
 //@   props C17
 //@   prune
 //@   requires s != nil && s.streams != nil && engInv(s.engine) && ctx != nil
@@ -197,13 +202,13 @@ package remote
 // Shutdown of a stream writer (dial failed or connection lost): the router is
 // told first, then the event stream, then the writer stops its inbox and
 // unregisters, so that a later send to its PID dead-letters (C09).
-//@ func (*streamWriter).PID()
+//@ func (s *streamWriter).PID()
 //@   props C17
 //@   requires s != nil
 //@   pure
 //@   ensures result == s.pid
 
-//@ func (*streamWriter).Shutdown()
+//@ func (s *streamWriter).Shutdown()
 //@   props C17
 //@   requires s != nil && engInv(s.engine) && !isnil(s.inbox) && s.pid != nil && anyoneMayStop
 //@   modifies mapof(s.engine.Registry.lookup), log, loglen, stoppedByMe
@@ -215,7 +220,7 @@ package remote
 // Remote.Stop: harmless when the remote is not running (nothing is signalled,
 // a fresh WaitGroup is returned); otherwise exactly one stop signal.
 //@ event StopSignal(ch Ref)
-//@ func (*Remote).Stop()
+//@ func (r *Remote).Stop()
 //@   props C17
 //@   requires r != nil
 //@   modifies log, loglen, r.state
@@ -231,7 +236,7 @@ package remote
 //@   trusted
 //@   modifies
 
-//@ func (*Remote).Start(e)
+//@ func (r *Remote).Start(e)
 //@   props C17
 //@   requires r != nil && engInv(e)
 //@   modifies heap except private, r.state, r.engine, r.streamRouterPID, r.stopWg, r.stopCh, log, loglen, startPerm
